@@ -42,23 +42,16 @@ Dev_NegativeYearWidth(c, u, text) ==
 \* writes past the buffer (garbage text, or the run dies).  Also days + 719468 overflows int64 at the very top.
 Dev_IsoPrintBufferOverflow(c, u) == Len(IsoPrintCodes(c, u)) >= 33
 
-\* Dev_AccumulationOrder (see Trace_ChronoParse): printing is fine, parsing the text back adds time of day, fraction and
-\* the negative whole days in this order and rejects pre-epoch instants of narrow representations and the first calendar
-\* day of every 64-bit range.
+\* Dev_AccumulationOrder / Dev_DaysFromCivilEdge (see Trace_ChronoParse): after the fixes b4c84ea / 0dda6ff only unsigned
+\* representations are affected; unsigned time points cannot be printed at all, so within C14 these guards never hold and
+\* every rejected reparse of a signed time point is a plain violation.
 TicksPerDay(u) ==
   CASE u = "ns" -> <<86400, 1000, 1000, 1000>> [] u = "us" -> <<86400, 1000, 1000>> [] u = "ms" -> <<86400, 1000>>
     [] u = "s" -> <<86400>> [] u = "min" -> <<1440>> [] u = "h" -> <<24>> [] OTHER -> <<>>
 Dev_AccumulationOrder(c, u, r, back) ==
-  LET days == DivModSmall(SplitSeconds(c, u).q, 86400).q
-      dayTicks == MulChain(days, TicksPerDay(u))
-      tod == Sub(c, dayTicks)
-  IN back = "O" /\ Lt(days, Zero) /\ (Gt(tod, RepMax(r)) \/ Lt(dayTicks, I64Min))
-
-\* Dev_DaysFromCivilEdge (see Trace_ChronoParse): era*146097 is guarded, the sum era*146097 + doe - 719468 is not
-Dev_DaysFromCivilEdge(c, u, back) ==
-  LET days == DivModSmall(SplitSeconds(c, u).q, 86400).q
-      eraDays == MulSmall(DivModSmall(AddSmall(days, 719468), 146097).q, 146097)
-  IN back = "O" /\ Gt(eraDays, I64Max)
+  back = "O" /\ ~RepSigned(r) /\ Lt(DivModSmall(SplitSeconds(c, u).q, 86400).q, Zero)
+Dev_DaysFromCivilEdge(c, u, r, back) ==
+  back = "O" /\ ~RepSigned(r) /\ Gt(DivModSmall(SplitSeconds(c, u).q, 86400).q, I64Max)
 
 \* Dev_NegativeNanoseconds: time_point/duration -> CBinTimestamp truncates the seconds toward zero, so a negative value
 \* with a sub-second part gets seconds+1 and NEGATIVE nanoseconds (the MsgPack timestamp formats have an unsigned
@@ -98,7 +91,7 @@ Verdicts(e) ==
       \* the reparse is only judged when the text itself was right (or deviates only in the year width, which the parser accepts)
       F4 == IF ~(textOK \/ textDev = "Dev_NegativeYearWidth") \/ e.back = V(c) THEN <<>>
             ELSE <<Bad("back", IF isTp /\ Dev_AccumulationOrder(c, u, r, e.back) THEN "Dev_AccumulationOrder"
-                               ELSE IF isTp /\ Dev_DaysFromCivilEdge(c, u, e.back) THEN "Dev_DaysFromCivilEdge" ELSE "", e.back, V(c))>>
+                               ELSE IF isTp /\ Dev_DaysFromCivilEdge(c, u, r, e.back) THEN "Dev_DaysFromCivilEdge" ELSE "", e.back, V(c))>>
       F5 == IF tsFits THEN (IF e.ts = expTs THEN <<>> ELSE <<Bad("ts-split", IF negNs THEN "Dev_NegativeNanoseconds" ELSE "", ToString(e.ts), ToString(expTs))>>)
             ELSE (IF IsExc(e.ts[1]) THEN <<>> ELSE <<Bad("ts-split", "", ToString(e.ts), "exception: seconds exceed int64")>>)
       F6 == IF tsFits THEN (IF e.tsback = V(c) THEN <<>> ELSE <<Bad("ts-back", "", e.tsback, V(c))>>)
@@ -139,7 +132,7 @@ RowVerdicts(e) ==
                    \o (IF textOK THEN <<>> ELSE <<W(Bad("text", textDev, o[2], expText))>>)
                    \o (IF ~(textOK \/ textDev = "Dev_NegativeYearWidth") \/ o[3] = V(c) THEN <<>>
                        ELSE <<W(Bad("back", IF Dev_AccumulationOrder(c, u, r, o[3]) THEN "Dev_AccumulationOrder"
-                                            ELSE IF Dev_DaysFromCivilEdge(c, u, o[3]) THEN "Dev_DaysFromCivilEdge" ELSE "", o[3], V(c)))>>)
+                                            ELSE IF Dev_DaysFromCivilEdge(c, u, r, o[3]) THEN "Dev_DaysFromCivilEdge" ELSE "", o[3], V(c)))>>)
                    \o (IF <<o[4], o[5]>> = expTs THEN <<>>
                        ELSE <<W(Bad("ts-split", IF Dev_NegativeNanosecondsSplit(c, u, <<o[4], o[5]>>) THEN "Dev_NegativeNanoseconds" ELSE "",
                                     ToString(<<o[4], o[5]>>), ToString(expTs)))>>)
